@@ -19,7 +19,9 @@ import (
 	"verifharness/internal/vh"
 )
 
-const quickN = 300000
+// quickN: about 13 CPU-seconds, i.e. 1-2 s wall on 16 idle cores and still under 10 s
+// when the machine is shared three ways.
+const quickN = 100000
 
 type caseOut struct {
 	malformed bool
@@ -191,6 +193,61 @@ func ddmin(data []byte, test func([]byte) bool) []byte {
 	return data
 }
 
+// chunks splits an input into tokens for the first, coarse ddmin pass: markup at tag
+// boundaries, path data before every command letter.
+func chunks(s string, path bool) []string {
+	var out []string
+	start := 0
+	for i := 0; i < len(s); i++ {
+		c := s[i]
+		cut := false
+		if path {
+			cut = i > start && (c >= 'A' && c <= 'Z' || c >= 'a' && c <= 'z') && c != 'e' && c != 'E'
+		} else {
+			cut = i > start && (c == '<' || s[i-1] == '>')
+		}
+		if cut {
+			out = append(out, s[start:i])
+			start = i
+		}
+	}
+	return append(out, s[start:])
+}
+
+func ddminChunks(cs []string, test func([]byte) bool) []string {
+	n := 2
+	join := func(x []string) []byte { return []byte(strings.Join(x, "")) }
+	for len(cs) >= 2 {
+		chunk := (len(cs) + n - 1) / n
+		reduced := false
+		for i := 0; i < len(cs); i += chunk {
+			j := i + chunk
+			if j > len(cs) {
+				j = len(cs)
+			}
+			cand := append(append([]string{}, cs[:i]...), cs[j:]...)
+			if test(join(cand)) {
+				cs = cand
+				if n > 2 {
+					n--
+				}
+				reduced = true
+				break
+			}
+		}
+		if !reduced {
+			if n >= len(cs) {
+				break
+			}
+			n *= 2
+			if n > len(cs) {
+				n = len(cs)
+			}
+		}
+	}
+	return cs
+}
+
 func shrink(c caseOut) caseOut {
 	sig := c.v.sig
 	test := func(b []byte) bool {
@@ -200,7 +257,8 @@ func shrink(c caseOut) caseOut {
 		v := evaluate(string(b), c.keep)
 		return v.judged && v.sig == sig
 	}
-	small := ddmin([]byte(c.input), test)
+	coarse := strings.Join(ddminChunks(chunks(c.input, false), test), "")
+	small := ddmin([]byte(coarse), test)
 	// second round: element-name and word simplifications are covered by byte removal;
 	// run ddmin again because removals can enable further removals.
 	small = ddmin(small, test)
@@ -263,7 +321,12 @@ func main() {
 			w.Input = string(vh.Unhex(w.InputHex))
 		}
 		keep := w.Options["KeepWhitespace"] == "true"
-		v := evaluate(w.Input, keep)
+		var v verdict
+		if w.Options["stream"] == "malformed" {
+			v = malformedCheck(w.Input, keep)
+		} else {
+			v = evaluate(w.Input, keep)
+		}
 		res.Tier = "witness"
 		res.Hist("options", "KeepWhitespace="+strconv.FormatBool(keep))
 		if v.judged {
